@@ -20,6 +20,30 @@ fn fmt_stub(_args: std::fmt::Arguments<'_>) -> String {
     String::new()
 }
 
+// core's memchr / memrchr take a word-at-a-time path built on pointer alignment, which the symbolic executor
+// treats as unknown even on concrete text.  The unchanged code does not search strings at all; a tree that
+// starts to (split / find / trim on the source text) would otherwise only time out.  Both stubs are exact.
+fn memchr_aligned_stub(x: u8, text: &[u8]) -> Option<usize> {
+    let mut i = 0;
+    while i < text.len() {
+        if text[i] == x {
+            return Some(i);
+        }
+        i += 1;
+    }
+    None
+}
+fn memrchr_stub(x: u8, text: &[u8]) -> Option<usize> {
+    let mut i = text.len();
+    while i > 0 {
+        i -= 1;
+        if text[i] == x {
+            return Some(i);
+        }
+    }
+    None
+}
+
 /// reference over bytes; `text` is valid UTF-8; returns (line, column), both 1-based
 fn ref_line_column(text: &[u8], offset: usize) -> (usize, usize) {
     let mut line = 1;
@@ -106,6 +130,8 @@ macro_rules! text_harness {
         #[kani::proof]
         #[kani::unwind($unwind)]
         #[kani::stub(alloc::fmt::format, fmt_stub)]
+#[kani::stub(core::slice::memchr::memchr_aligned, memchr_aligned_stub)]
+#[kani::stub(core::slice::memchr::memrchr, memrchr_stub)]
         fn $name() {
             line_column_text($text);
         }
@@ -116,6 +142,8 @@ macro_rules! range_harness {
         #[kani::proof]
         #[kani::unwind($unwind)]
         #[kani::stub(alloc::fmt::format, fmt_stub)]
+#[kani::stub(core::slice::memchr::memchr_aligned, memchr_aligned_stub)]
+#[kani::stub(core::slice::memchr::memrchr, memrchr_stub)]
         fn $name() {
             line_column_range_text($text);
         }
@@ -126,6 +154,7 @@ text_harness!(c11_text_empty, 8, "");
 text_harness!(c11_text_lf, 14, "ab\ncd");
 text_harness!(c11_text_cr_crlf, 15, "a\r\nb\rc");
 text_harness!(c11_text_only_terminators, 13, "\n\r\r\n\n");
+text_harness!(c11_text_cr_cr_lf, 12, "\r\r\n");
 text_harness!(c11_text_trailing_cr, 11, "a\r");
 text_harness!(c11_text_trailing_lf, 11, "a\n");
 text_harness!(c11_text_vt_ff, 14, "a\x0Cb\x0Bc");
@@ -175,6 +204,8 @@ macro_rules! prefix_harness {
         #[kani::proof]
         #[kani::unwind($unwind)]
         #[kani::stub(alloc::fmt::format, fmt_stub)]
+#[kani::stub(core::slice::memchr::memchr_aligned, memchr_aligned_stub)]
+#[kani::stub(core::slice::memchr::memrchr, memrchr_stub)]
         fn $name() {
             line_column_prefix::<$n>($prefix, $lo, $hi);
         }
@@ -186,13 +217,52 @@ prefix_harness!(c11_prefix_bare_cr, 2, 10, b"\r", 0, 0x7F);
 prefix_harness!(c11_prefix_cr, 3, 11, b"a\r", 0, 0x7F);
 // second byte of a 2-byte character symbolic: U+00C0..U+00FF
 prefix_harness!(c11_prefix_two_byte_lead, 3, 11, b"a\xC3", 0x80, 0xBF);
+// last byte of a 3-byte (U+2000..U+203F: includes U+2028/U+2029) and of a 4-byte character (U+1F600..U+1F63F) symbolic
+prefix_harness!(c11_prefix_three_byte_lead, 4, 12, b"a\xE2\x80", 0x80, 0xBF);
+prefix_harness!(c11_prefix_four_byte_lead, 5, 13, b"a\xF0\x9F\x98", 0x80, 0xBF);
+// U+0080..U+00BF: includes U+0085 (NEL)
+prefix_harness!(c11_prefix_c2_lead, 2, 10, b"\xC2", 0x80, 0xBF);
 prefix_harness!(c11_prefix_crlf, 4, 12, b"a\r\n", 0, 0x7F);
 prefix_harness!(c11_prefix_lf_letter, 4, 12, b"a\nb", 0, 0x7F);
+
+// ---- TWO symbolic text bytes: every valid UTF-8 text of exactly 2 bytes, every offset -------------------------
+#[kani::proof]
+#[kani::unwind(10)]
+#[kani::stub(alloc::fmt::format, fmt_stub)]
+#[kani::stub(core::slice::memchr::memchr_aligned, memchr_aligned_stub)]
+#[kani::stub(core::slice::memchr::memrchr, memrchr_stub)]
+fn c11_any_two_bytes() {
+    let text: [u8; 2] = kani::any();
+    // valid UTF-8 of length 2: two ASCII bytes, or one 2-byte character
+    let ascii = text[0] < 0x80 && text[1] < 0x80;
+    let two = text[0] >= 0xC2 && text[0] <= 0xDF && text[1] & 0xC0 == 0x80;
+    kani::assume(ascii || two);
+    let s = unsafe { std::str::from_utf8_unchecked(&text[..]) };
+    let file = mk::source_file(s.to_owned());
+    let offset: usize = kani::any();
+    let got = file.get_line_column(offset);
+    std::mem::forget(file);
+    if offset > 2 {
+        assert!(got.is_none(), "an offset past the end has no position");
+    } else {
+        assert!(got.is_some(), "every offset up to and including the end has a position");
+        if on_char_boundary(&text[..], offset) {
+            let want = ref_line_column(&text[..], offset);
+            assert!(matches!(&got, Some(lc) if lc.line == want.0), "line number follows the GraphQL LineTerminator rule");
+            assert!(matches!(&got, Some(lc) if lc.column == want.1), "column counts Unicode scalar values");
+        }
+    }
+    kani::cover!(text[0] == b'\r' && text[1] == b'\n' && offset == 2, "CR LF, position at the end");
+    kani::cover!(text[0] == b'\n' && text[1] == b'\r' && offset == 2, "LF CR, position at the end");
+    kani::cover!(two && offset == 2, "2-byte character, position at the end");
+}
 
 // vacuity twin: must FAIL (claims every position is on line 1)
 #[kani::proof]
 #[kani::unwind(12)]
 #[kani::stub(alloc::fmt::format, fmt_stub)]
+#[kani::stub(core::slice::memchr::memchr_aligned, memchr_aligned_stub)]
+#[kani::stub(core::slice::memchr::memrchr, memrchr_stub)]
 fn c11_twin_must_fail() {
     let file = mk::source_file("a\nb".to_owned());
     let got = file.get_line_column(2);
